@@ -57,9 +57,12 @@ impl Report {
         }
     }
     pub fn fail(&mut self, sig: impl Into<String>, what: impl Into<String>, case: impl Into<String>) {
-        if self.failures.len() < 25 {
+        // at most 3 cases per signature, so that one flooding signature (e.g. a known finding) never
+        // hides a different one
+        let sig: String = sig.into();
+        if self.failures.iter().filter(|f| f.sig == sig).count() < 3 && self.failures.len() < 60 {
             self.failures.push(Failure {
-                sig: sig.into(),
+                sig,
                 what: what.into(),
                 case: case.into(),
             });
